@@ -356,8 +356,8 @@ func (c04) Run(c *fw.Ctx) {
 
 	// the same contract for fetches that go through the server (the request names its clock): every 6th case, against
 	// the single-threaded server with delayed socket writes while other clients read files of the same layout
-	if c.Index%6 == 0 && !c.Violated() {
-		c04Remote(c, l, now)
+	if c.Index%6 == 0 && (c.Index < 6000 || c.Index%600 == 0) && !c.Violated() {
+		c04Remote(c, l, now) // (thorough: the first 1000 such cases, then every 600th case - each costs about a second)
 	}
 
 	if sawAbsent && sawDegen && sawClamp {
